@@ -11,7 +11,8 @@ EXTENDS Integers, Sequences, FiniteSets, TLC, Json, IOUtils
 CONSTANTS GuardSlack,   \* evaluateNodeConcurrently takes its guard unconditionally, on top of the schedule guard
           Slack,        \* C: frames of the surrounding loops + stale entries of the stack-pointer measure
           BudgetKb,     \* stack budget for (kMaxInlineDepth + C) nested levels
-          MustBound     \* scenarios whose record must be within the bound
+          MustBound,    \* scenarios whose record must be within the bound
+          MustPlace     \* fault scenarios: the record must say that the fault was placed (else the run says nothing)
 
 TraceLog == ndJsonDeserialize(IOEnv.TRACE)
 Hdr == TraceLog[1]
@@ -23,10 +24,20 @@ vars == <<l, unbounded>>
 Within(r) ==
   /\ r.crash1 = 0 /\ r.crash2 = 0 /\ r.timeout1 = 0 /\ r.timeout2 = 0
   /\ r.done1 = 1 /\ r.done2 = 1
-  /\ r.ran1 >= r.n1 /\ r.ran2 >= r.n2
+  /\ r.ran1 >= r.need1 /\ r.ran2 >= r.need2      \* need = n, except in the fault scenarios (see below)
   /\ r.nest1 <= K /\ r.nest2 <= K
   /\ r.guard1 <= Hdr.maxinl + GuardSlack /\ r.guard2 <= Hdr.maxinl + GuardSlack
   /\ r.sb1 <= BudgetKb * 1024 /\ r.sb2 <= BudgetKb * 1024
+
+(* Fault scenarios pipeline_serial_fault_xx: a stage throws while a serial stage is in the middle of a  *)
+(* run of inline continuations with a large backlog that nobody discards.  The bound is the same as   *)
+(* without a fault: kMaxInlineDepth limits the chain in EVERY state of the pipeline's task set (after  *)
+(* the fault the chain runs on until its guard says stop; the force-queued continuation is then        *)
+(* dropped by the cancelled set).  What differs is completion: done = pipeline() rethrew the stage's   *)
+(* exception, and only the need bodies entered before the fault must have run - the rest of the        *)
+(* backlog is discarded by wait().  inj = 1: the exception was recorded while a call of the serial      *)
+(* stage nested 3..20 deep was held, with at least n/3 items still queued behind the stage.             *)
+Placed(r) == r.inj1 = 1 /\ r.inj2 = 1
 
 Init == l = 2 /\ unbounded = {} /\ Hdr.e = "Header"
 
@@ -37,6 +48,7 @@ Step ==
        /\ IF Within(r) THEN UNCHANGED unbounded
           ELSE /\ PrintT(<<"UNBOUNDED", r.sc>>)
                /\ unbounded' = unbounded \cup {r.sc}
+       /\ (r.sc \in MustPlace /\ Within(r) /\ ~Placed(r)) => PrintT(<<"FAULT_NOT_PLACED", r.sc>>)
   /\ l' = l + 1
 
 Spec == Init /\ [][Step]_vars
